@@ -124,3 +124,10 @@ reg('C18', 'runtime monitoring: independent-calendar oracle observed through :in
     'recognised only when the observation equals the calendar with that one switch on.',
     'Trusted: vlib/refhtml.py calendar (cross-checked against datetime for years 1..9999 in tools/selfcheck.py); only the '
     'string shapes the statement enumerates are treated as valid.')
+reg('C19', 'runtime monitoring: reference text-content oracle on tree snapshots with all seven node kinds interleaved',
+    'Trees interleaving text, blank text, comments, CDATA, processing instructions, doctypes and declarations with '
+    'elements at every depth (API-built HTML/XML and four parsers, iframes carrying markup) are queried with '
+    ':-soup-contains / -own / :contains / :empty; needles are cut from the real concatenation (across node boundaries, '
+    'into comment/CDATA text) or are empty/hostile; every select() is compared with the reference text content '
+    'computed on a snapshot of the same tree.',
+    'Trusted: the reference text rules in props/C19.py (node kinds by bs4 class, iframe cut for HTML documents).')
